@@ -35,6 +35,24 @@ ENGINE_OF = {
 RUN_TIMEOUT = float(os.environ.get('VERIF_RUN_TIMEOUT', '180'))
 
 
+class MainThing(object):
+    """a user-defined class that lives in the script's __main__ (this file runs as a script): values of such a
+    class written by one process must be readable by a process whose __main__ is something else"""
+    def __init__(self, n):
+        self.n = n
+
+    def __eq__(self, other):
+        return type(other).__name__ == 'MainThing' and getattr(other, 'n', None) == self.n
+
+    def __ne__(self, other):
+        return not self.__eq__(other)
+
+    __hash__ = None
+
+    def __repr__(self):
+        return 'MainThing(%r)' % (self.n,)
+
+
 def scratch_base():
     for base in ('/dev/shm', os.environ.get('TMPDIR', '/tmp')):
         if os.path.isdir(base) and os.access(base, os.W_OK):
